@@ -162,7 +162,8 @@ def _frame_check(eng, st, gid, node, what, comps=None):
 
 def get_item(eng, st, base, key, node, spec=False):
     if isinstance(base, NodesOf):
-        key = lift(key)
+        key, notnone = ops.unwrap_opt(lift(key))
+        eng.safety(st, notnone, node, 'node-key-not-None', spec)
         eng.safety(st, st.heap.has_node(base.g.t, key.t), node, 'node-exists', spec)
         return NodeView(base.g, key)
     if isinstance(base, NodeView):
@@ -293,9 +294,23 @@ def set_item(eng, st, base, key, value, node):
         return None
     if isinstance(base, AttrRec):
         name = _const_str(key)
-        suffix, ty = H.NODE_SCHEMAS[base.schema][name]
-        base.attrs[suffix] = (TRUE, ops.coerce(value, ty))
-        return None
+        value = lift(value)
+        # a detached attribute dict is plain Python data: a key may change its value type (template fragid int ->
+        # molecule fragid list); pick the schema variant by the type of the stored value
+        for sch in ('mol', 'tmpl'):
+            if name in H.NODE_SCHEMAS[sch]:
+                suffix, ty = H.NODE_SCHEMAS[sch][name]
+                try:
+                    cv = ops.coerce(value, ty)
+                except Unsupported:
+                    continue
+                for other in ('mol', 'tmpl'):
+                    osuf = H.NODE_SCHEMAS[other].get(name, (None,))[0]
+                    if osuf and osuf != suffix:
+                        base.attrs[osuf] = (FALSE, fresh(H.NODE_SCHEMAS[other][name][1]))
+                base.attrs[suffix] = (TRUE, cv)
+                return None
+        raise Unsupported('attribute %s with value of type %s' % (name, value.ty))
     base = lift(base)
     if isinstance(base.ty, TDict):
         nb = ops.dict_set(base, key, value)
@@ -582,6 +597,7 @@ def spec_call(eng, st, e, old):
                 raise Unsupported('old() where no entry state exists')
             tmp = State()
             tmp.env = dict(old.env)
+            tmp.env.update(eng.qenv)        # variables bound by enclosing quantifiers stay visible inside old(...)
             # loop ghosts and `result` are not part of the entry state
             tmp.heap = old.heap
             tmp.pc = st.pc
@@ -598,21 +614,29 @@ def spec_call(eng, st, e, old):
             names = [a.arg for a in lam.args.args]
             vs = [z3.Int(fresh_name(x)) for x in names]
             sub = st.copy()
+            saved_q = dict(eng.qenv)
             for x, v in zip(names, vs):
                 sub.env[x] = Val(TInt, v)
+                eng.qenv[x] = Val(TInt, v)
             n_before = len(eng.bound_names)
             eng.bound_names.extend(v.decl().name() for v in vs)
             try:
                 body = ops.truthy(eng.ev(lam.body, sub, True, old))
             finally:
                 del eng.bound_names[n_before:]
+                eng.qenv.clear()
+                eng.qenv.update(saved_q)
             for extra in sub.pc[len(st.pc):]:
                 st.assume(extra)
             return Val(TBool, z3.ForAll(vs, body) if n == 'forall_int' else z3.Exists(vs, body))
         if n in eng.spec_funcs:
-            args = [lift(eng.ev(a, st, True, old)) for a in e.args]
+            args = [eng.ev(a, st, True, old) for a in e.args]
+            args = [a if not isinstance(a, (int, float, str, bool)) else lift(a) for a in args]
             if n in eng.c.opaque:
                 return eng.spec_funcs[n].opaque(eng, st, *args)
+            from . import speclib as _sl
+            if n in _sl.OLD_SPECS:
+                return eng.spec_funcs[n].smt(eng, st, *args, old=old)
             return eng.spec_funcs[n].smt(eng, st, *args)
         if n in BUILTINS:
             return BUILTINS[n](eng, st, e, spec=True, old=old)
@@ -651,15 +675,20 @@ def quantifier(eng, st, gen, kind, old, spec=True):
         bound.append(i)
         eng.bound_names.append(i.decl().name())
         eng.assign(comp.target, seq.getter(i), sub, gen)
+        for nm in [n.id for n in ast.walk(comp.target) if isinstance(n, ast.Name)]:
+            eng.qenv[nm] = sub.env[nm]
         conds = [ops.truthy(eng.ev(c, sub, spec, old)) for c in comp.ifs]
         rng = z3.And(0 <= i, i < getattr(seq, 'raw_len', seq.length), *conds)
         body = expand(k + 1)
         return z3.Implies(rng, body) if kind == 'all' else z3.And(rng, body)
     n_before = len(eng.bound_names)
+    saved_q = dict(eng.qenv)
     try:
         body = expand(0)
     finally:
         del eng.bound_names[n_before:]
+        eng.qenv.clear()
+        eng.qenv.update(saved_q)
     if not bound:
         return Val(TBool, body)
     return Val(TBool, z3.ForAll(bound, body) if kind == 'all' else z3.Exists(bound, body))
@@ -822,6 +851,13 @@ def b_max(eng, st, node, spec=False, old=None):
         return Val(TReal, z3.If(x >= y, x, y))
     if len(node.args) == 1:
         v = eng.ev(node.args[0], st, spec, old)
+        from . import speclib
+        if isinstance(v, NodesOf) and v.data is None:
+            eng.safety(st, st.heap.n_nodes(v.g.t) > 0, node, 'max-of-empty', spec)
+            return speclib.SPEC_FUNCS['max_node_key'].smt(eng, st, v.g)
+        if isinstance(v, Val) and isinstance(v.ty, TList) and v.ty.elem is TInt:
+            eng.safety(st, ops.list_len(v) > 0, node, 'max-of-empty', spec)
+            return speclib.SPEC_FUNCS['list_max'].smt(eng, st, v)
         seq = as_sequence(eng, st, v, node)
         # max of a non-empty int sequence: a fresh value that is an element and an upper bound
         m = z3.Int(fresh_name('max'))
@@ -1027,7 +1063,8 @@ def _kw_attrs(eng, st, g, kwargs, schema_of):
 
 def g_add_node(eng, st, node, g, args, kwargs, spec):
     n = lift(args[0])
-    _frame_check(eng, st, g.t, node, 'add_node')
+    ncomps = ['nodes', 'hasn', 'nidx', 'rest'] + ['nh:' + a for a in H._ATTR_SORTS] + ['nv:' + a for a in H._ATTR_SORTS]
+    _frame_check(eng, st, g.t, node, 'add_node', ncomps)
     sch = H.NODE_SCHEMAS[g.ty.schema]
     attrs, rec = _kw_attrs(eng, st, g, kwargs, lambda k: sch[k] if k in sch else (_ for _ in ()).throw(Unsupported('attr ' + k)))
     view = attrs.pop('**view', None)
@@ -1059,7 +1096,14 @@ def g_add_node(eng, st, node, g, args, kwargs, spec):
 
 def g_add_edge(eng, st, node, g, args, kwargs, spec):
     u, v = lift(args[0]), lift(args[1])
-    _frame_check(eng, st, g.t, node, 'add_edge')
+    ecomps = ['hase', 'elist', 'eidx'] + ['eh:' + sfx for sfx, _ in H.EDGE_SCHEMA.values()] + ['ev:' + sfx for sfx, _ in H.EDGE_SCHEMA.values()]
+    _frame_check(eng, st, g.t, node, 'add_edge', ecomps)
+    if st.writable is not None:
+        both = z3.And(st.heap.has_node(g.t, u.t), st.heap.has_node(g.t, v.t))
+        cond = z3.Or(both, st.writable(g.t, ['nodes', 'hasn', 'nidx', 'rest']))
+        if not z3.is_true(z3.simplify(cond)):
+            eng.oblige(st, 'frame', cond, node, 'add_edge-end-nodes', detail='add_edge would create a node outside the frame')
+            st.assume(cond)
 
     def sch(k):
         if k not in H.EDGE_SCHEMA:
